@@ -23,6 +23,7 @@ type c08Desc struct {
 	Trigger string `json:"trigger"` // auto | explicit
 	Suffix  string `json:"suffix"`
 	Late    string `json:"late,omitempty"` // late-notification order: "", beforeCtxClear, beforeServerClear, afterRelease, afterDispatch
+	LateAt  string `json:"late_at,omitempty"` // where the watcher is paused: "" = after it handled the exit; "cancel" = at its entry into CancelFlows (bounded pause)
 	NExt    int    `json:"extensions"`
 }
 
@@ -35,7 +36,7 @@ func genC08(tier string, seed int64) []Case {
 	add := func(d c08Desc) {
 		id := fmt.Sprintf("C08/%s/%s/%s/n%d", d.Prefix, d.Trigger, d.Suffix, d.NExt)
 		if d.Late != "" {
-			id += "/late-" + d.Late
+			id += "/late-" + d.Late + d.LateAt
 		}
 		if seen[id] {
 			return
@@ -67,6 +68,11 @@ func genC08(tier string, seed int64) []Case {
 		add(c08Desc{Prefix: "rtcrash", Trigger: "auto", Suffix: "healthy2", Late: late, NExt: 1})
 		add(c08Desc{Prefix: "extcrash", Trigger: "auto", Suffix: "healthy2", Late: late, NExt: 1})
 		add(c08Desc{Prefix: "extexiterror", Trigger: "auto", Suffix: "subs", Late: late, NExt: 1})
+		add(c08Desc{Prefix: "timeout", Trigger: "auto", Suffix: "healthy2", Late: late, LateAt: "cancel", NExt: 0})
+		add(c08Desc{Prefix: "healthy1", Trigger: "explicit", Suffix: "healthy2", Late: late, LateAt: "cancel", NExt: 0})
+		add(c08Desc{Prefix: "healthy3", Trigger: "explicit", Suffix: "crash", Late: late, LateAt: "cancel", NExt: 0})
+		add(c08Desc{Prefix: "rtcrash", Trigger: "auto", Suffix: "healthy2", Late: late, LateAt: "cancel", NExt: 1})
+		add(c08Desc{Prefix: "extcrash", Trigger: "auto", Suffix: "healthy2", Late: late, LateAt: "cancel", NExt: 1})
 	}
 	if tier == "thorough" {
 		for _, p := range c08Prefixes {
@@ -297,12 +303,28 @@ func c08Instance(c *Ctx, d c08Desc, _ bool) *c08Result {
 	}
 
 	// ---- late notification: hold the events watcher after it recorded an exit of the old generation ----
+	latePoint := "watchEvents.exitRecorded"
 	if d.Late != "" {
 		nth := 1
 		if d.Prefix == "rtcrash" || d.Prefix == "extcrash" || d.Prefix == "extexiterror" {
 			nth = 2 // the first exit is the fault itself; the second one is consumed by the reset
 		}
-		hk.Hold("watchEvents.exitRecorded", nth)
+		if d.LateAt == "cancel" {
+			// the watcher is paused between "exit event received" and its CancelFlows call; in the
+			// order the code is meant to have (cancel, then record) nothing has happened yet, so the
+			// pause only delays the notification - it is bounded well below the 2 s the teardown
+			// waits for exits, so that correct code is never pushed into its give-up path
+			latePoint = "registrations.cancelFlows"
+			hk.HoldAfter(latePoint, "watchEvents.received", nth)
+			go func() {
+				if hk.WaitHeld(latePoint, 30*time.Second) {
+					time.Sleep(300 * time.Millisecond)
+					hk.Release(latePoint)
+				}
+			}()
+		} else {
+			hk.Hold(latePoint, nth)
+		}
 		switch d.Late {
 		case "beforeCtxClear":
 			hk.Hold("rapidCtx.beforeClear", 0)
@@ -422,7 +444,7 @@ func c08Instance(c *Ctx, d c08Desc, _ bool) *c08Result {
 	}
 	if d.Late == "afterRelease" {
 		// reset is complete, nothing reserved: now let the late notification through
-		hk.Release("watchEvents.exitRecorded")
+		hk.Release(latePoint)
 		time.Sleep(3 * time.Millisecond)
 	}
 
@@ -451,7 +473,7 @@ func c08Instance(c *Ctx, d c08Desc, _ bool) *c08Result {
 				time.Sleep(100 * time.Microsecond)
 			}
 			time.Sleep(time.Millisecond)
-			hk.Release("watchEvents.exitRecorded")
+			hk.Release(latePoint)
 		}
 		if !inv.Wait(6*time.Second + 10*time.Second) {
 			c.Check(false, "suffix_completes", "C08/suffix-hang/"+d.Prefix+"/"+d.Suffix, "suffix invocation never returned", i)
@@ -625,7 +647,11 @@ func c08Instance(c *Ctx, d c08Desc, _ bool) *c08Result {
 // events watcher, according to d.Late.
 func c08LateDance(c *Ctx, w *World, d c08Desc, inv *vh.Invocation, long time.Duration) {
 	hk := w.Hk
-	held := hk.WaitHeld("watchEvents.exitRecorded", 8*time.Second)
+	latePoint := "watchEvents.exitRecorded"
+	if d.LateAt == "cancel" {
+		latePoint = "registrations.cancelFlows"
+	}
+	held := hk.WaitHeld(latePoint, 8*time.Second)
 	if !held {
 		// this prefix / trigger produced no exit notification to delay (e.g. nothing to kill)
 		c.Counter("late_window_not_reached", 1)
@@ -638,13 +664,13 @@ func c08LateDance(c *Ctx, w *World, d c08Desc, inv *vh.Invocation, long time.Dur
 	switch d.Late {
 	case "beforeCtxClear":
 		if hk.WaitHeld("rapidCtx.beforeClear", 8*time.Second) {
-			hk.Release("watchEvents.exitRecorded")
+			hk.Release(latePoint)
 			time.Sleep(2 * time.Millisecond)
 			hk.Release("rapidCtx.beforeClear")
 		}
 	case "beforeServerClear":
 		if hk.WaitHeld("serverReset.beforeClear", 8*time.Second) {
-			hk.Release("watchEvents.exitRecorded")
+			hk.Release(latePoint)
 			time.Sleep(2 * time.Millisecond)
 			hk.Release("serverReset.beforeClear")
 		}
